@@ -51,6 +51,8 @@ def _canon(o) -> bytes:
     if isinstance(o, (list, tuple)):
         return b"[" + b",".join(_canon(x) for x in o) + b"]"
     a = np.asarray(o)
+    if a.dtype == object:  # bytes of an object array are addresses
+        return b"O" + str(a.shape).encode() + _canon([_canon(x) for x in a.reshape(-1).tolist()])
     return str(a.dtype).encode() + str(a.shape).encode() + np.ascontiguousarray(a).tobytes()
 
 
